@@ -144,7 +144,7 @@ def gen_e2e(ctx, rng):
     if rng.random() < 0.35:
         meta["np_ints"] = rng.choice([64, 32])
     if len(L) >= 1 and rng.random() < 0.3:
-        meta["region_container"] = rng.choice(["tuple1", "2d", "list"])
+        meta["region_container"] = rng.choice(["tuple1", "2d", "list", "dup", "dup"])
     if not graded and not scaled and rng.random() < 0.2:
         # (not combined with the extreme units above: squared norms must stay inside the narrower type's range – that is a limit of
         # the storage type, not of the algorithm; seed 2 of the first sweep produced 2^-90-sized float32 entries and a false alarm)
